@@ -293,6 +293,9 @@ pub fn value_for_spelling(class: &str, name: &str, salt: u32) -> rbx_dom_weak::t
         }
         Some(VariantType::Vector3) => Variant::Vector3(Vector3::new(s as f32, 2.0, 3.5)),
         Some(VariantType::Bool) => Variant::Bool(s % 2 == 0),
+        // the writer also accepts an EnumItem where the column holds Enums; classes without database defaults
+        // (Player) get both forms, so a column's neutral default is exercised with either form seen first
+        Some(VariantType::Enum) if class == "Player" && (s / 10) % 2 == 1 => Variant::EnumItem(EnumItem { ty: name.to_string(), value: 1 + s % 2 }),
         Some(VariantType::Enum) => Variant::Enum(Enum::from_u32(if name == "Font" { [1u32, 3, 10, 17, 45][(s as usize) % 5] } else { 1 + s % 2 })),
         Some(VariantType::Font) => Variant::Font(Font::new(&format!("rbxasset://fonts/families/F{}.json", s), FontWeight::Bold, FontStyle::Italic)),
         Some(VariantType::ContentId) => Variant::ContentId(format!("rbxassetid://{}", 100 + s).into()),
